@@ -14,6 +14,7 @@ This is the CFG / dominance / def-use layer of DESIGN.md realised on the structu
 besides break/continue/return/raise, which are handled here).
 """
 import ast
+import copy
 
 from .loader import AnalysisError, FunctionInfo
 from . import terms as T
@@ -329,16 +330,11 @@ class Evaluator(object):
             b = stmts[i + 1] if i + 1 < len(stmts) else None
             done = False
             if isinstance(a, ast.Assign) and len(a.targets) == 1 and isinstance(a.targets[0], ast.Name) and isinstance(a.value, ast.List) and not a.value.elts \
-                    and isinstance(b, ast.For) and not b.orelse and len(b.body) == 1:
+                    and isinstance(b, ast.For) and not b.orelse and len(b.body) >= 1:
                 x = a.targets[0].id
-                inner = b.body[0]
-                conds = []
-                while isinstance(inner, ast.If) and not inner.orelse and len(inner.body) == 1:
-                    conds.append(inner.test)
-                    inner = inner.body[0]
-                if isinstance(inner, ast.Expr) and isinstance(inner.value, ast.Call) and isinstance(inner.value.func, ast.Attribute) and inner.value.func.attr == 'append' \
-                        and isinstance(inner.value.func.value, ast.Name) and inner.value.func.value.id == x and len(inner.value.args) == 1 and not inner.value.keywords:
-                    elt = inner.value.args[0]
+                red = Evaluator._reduce_append_body(b.body, x)
+                if red is not None:
+                    conds, elt = red
                     reads = [n for part in [elt, b.iter] + conds for n in ast.walk(part) if isinstance(n, ast.Name) and n.id == x]
                     if not reads:
                         comp = ast.ListComp(elt=elt, generators=[ast.comprehension(target=b.target, iter=b.iter, ifs=conds, is_async=0)])
@@ -370,6 +366,56 @@ class Evaluator(object):
                 out.append(a)
                 i += 1
         return out
+
+    @staticmethod
+    def _reduce_append_body(stmts, x):
+        """Loop body that does nothing but append one element to list `x` per (selected) iteration -> (conditions, element expression); None otherwise.
+        Understands: `x.append(e)`; `if c: <body>` (filter); `if c: x.append(a) else: x.append(b)` (conditional element); a leading guard `if c: continue`;
+        `if c: x.append(a); continue` followed by `x.append(b)`; a leading `t = expr` used in what follows (substituted)."""
+        def is_append(st):
+            return isinstance(st, ast.Expr) and isinstance(st.value, ast.Call) and isinstance(st.value.func, ast.Attribute) and st.value.func.attr == 'append' \
+                and isinstance(st.value.func.value, ast.Name) and st.value.func.value.id == x and len(st.value.args) == 1 and not st.value.keywords
+
+        def subst(node, name, value):
+            class Sub(ast.NodeTransformer):
+                def visit_Name(self, n):
+                    if n.id == name and isinstance(n.ctx, ast.Load):
+                        return ast.copy_location(copy.deepcopy(value), n)
+                    return n
+            return Sub().visit(copy.deepcopy(node))
+
+        def red(stmts):
+            if not stmts:
+                return None
+            first = stmts[0]
+            if len(stmts) == 1 and is_append(first):
+                return [], first.value.args[0]
+            if len(stmts) == 1 and isinstance(first, ast.If):
+                if first.orelse:
+                    r1, r2 = red(first.body), red(first.orelse)
+                    if r1 is not None and r2 is not None and not r1[0] and not r2[0]:
+                        return [], ast.copy_location(ast.IfExp(test=first.test, body=r1[1], orelse=r2[1]), first)
+                    return None
+                r = red(first.body)
+                return None if r is None else ([first.test] + r[0], r[1])
+            if isinstance(first, ast.If) and not first.orelse and len(first.body) == 1 and isinstance(first.body[0], ast.Continue):
+                r = red(stmts[1:])
+                return None if r is None else ([ast.copy_location(ast.UnaryOp(op=ast.Not(), operand=first.test), first)] + r[0], r[1])
+            if isinstance(first, ast.If) and not first.orelse and len(first.body) == 2 and is_append(first.body[0]) and isinstance(first.body[1], ast.Continue):
+                r = red(stmts[1:])
+                if r is not None and not r[0]:
+                    return [], ast.copy_location(ast.IfExp(test=first.test, body=first.body[0].value.args[0], orelse=r[1]), first)
+                return None
+            if isinstance(first, ast.Assign) and len(first.targets) == 1 and isinstance(first.targets[0], ast.Name) and first.targets[0].id != x \
+                    and not any(isinstance(n, (ast.Call, ast.Yield, ast.Await, ast.NamedExpr)) for n in ast.walk(first.value)):
+                # (only call-free right-hand sides are substituted: no evaluation is duplicated or re-ordered)
+                r = red(stmts[1:])
+                if r is None:
+                    return None
+                t = first.targets[0].id
+                return [subst(c, t, first.value) for c in r[0]], subst(r[1], t, first.value)
+            return None
+        return red(list(stmts))
 
     def exec_block(self, stmts, st):
         """-> list of (status, state); status None | 'break' | 'continue'"""
@@ -758,6 +804,17 @@ class Evaluator(object):
     def st_Continue(self, node, st):
         return [('continue', st)]
 
+    def _repo_function_names(self):
+        names = getattr(self.P, '_short_function_names', None)
+        if names is None:
+            names = set(q.rsplit('.', 1)[-1] for q in self.P.functions)
+            names -= {'get', 'pop', 'copy', 'take', 'index', 'keys', 'values', 'items', 'where', 'nonzero', 'split'}      # also names of builtin / NumPy methods
+            try:
+                self.P._short_function_names = names
+            except Exception:
+                pass
+        return names
+
     # ---------------------------------------------------------- expressions
     def ev_seq(self, nodes, st):
         """-> list of (tuple_of_terms, state)"""
@@ -795,8 +852,11 @@ class Evaluator(object):
             out.append((self._subscript(o, i), s))
         return out
 
-    @staticmethod
-    def _subscript(o, i):
+    def _subscript(self, o, i):
+        # f(...)[k] of a repository function is the k-th item of its result: the same term as the k-th target of `a, b = f(...)`
+        if o[0] == 'call' and i[0] == 'const' and isinstance(i[1], int) and not isinstance(i[1], bool) and i[1] >= 0 \
+                and T.call_name(o) in self._repo_function_names():
+            return ('item', o, i[1])
         if o[0] in ('tuple', 'list') and i[0] == 'const' and isinstance(i[1], int) \
                 and not any(x[0] == 'star' for x in o[1]) and -len(o[1]) <= i[1] < len(o[1]):
             return o[1][i[1]]
@@ -940,7 +1000,11 @@ class Evaluator(object):
                 out.extend(self.ev(node.orelse, s))
             else:
                 for (a, b), s2 in self.ev_seq([node.body, node.orelse], s):
-                    out.append((('ifexp', c, a, b), s2))
+                    # canonical polarity: `x if p != q else y` and `y if p == q else x` are the same term
+                    if neg and c[0] not in ('boolop', 'ifexp'):
+                        out.append((('ifexp', atom, b, a), s2))
+                    else:
+                        out.append((('ifexp', (atom if c[0] not in ('boolop', 'ifexp') else c), a, b), s2))
         return out
 
     def ex_JoinedStr(self, node, st):
@@ -1057,6 +1121,16 @@ class Evaluator(object):
         if f[0] == 'lambda' and len(call[2]) == f[1] and not call[3]:
             body = subst_bv(f[2], f[3], call[2])
             return [(body, st)]
+        # a callee chosen by a conditional expression (`g = a.f if c else a.h; g(x)`): the call is distributed over the alternatives
+        if f[0] == 'ifexp':
+            atom, neg = canon_atom(f[1])
+            saved = st.guards
+            alts = []
+            for branch, pol in ((f[2], True), (f[3], False)):
+                st.guards = saved + ((atom, pol ^ neg),)
+                alts.append(self._do_call(('call', branch, call[2], call[3]), node, st)[0][0])
+            st.guards = saved
+            return [(('ifexp', f[1], alts[0], alts[1]), st)]
         target = None
         if f[0] == 'localfn':
             target = self.P.functions.get(f[1])
